@@ -259,7 +259,6 @@ func ruleComposedSQL(w *World, r *Run, rule string) {
 	}
 }
 
-
 // scannedFrom: t is the value written by Scan on the row(s) returned by query result q.
 func scannedFrom(t, q *Term) bool {
 	if t == nil || t.Kind != "out" || len(t.Args) < 1 {
